@@ -44,6 +44,10 @@ UNROOTED = "(A_2000:0.1,B_2001:0.2,(C_2002.5:0.12,(D_2003:0.08,(E_2004:0.15,F_20
 
 YMD = {"A_2000": "2000-01-01", "B_2001": "2001-01-01", "C_2002.5": "2002-07-02", "D_2003": "2003-01-01",
        "E_2004": "2004-01-01", "F_2004": "2004-01-01"}
+# contemporaneous data: the same sequences, every name ends in _2009; an ultrametric tree (years / substitutions)
+SAME = {k: k.rsplit("_", 1)[0] + "_2009" for k in SEQS}
+ROOTED_SAME = "((((E_2009:1,F_2009:1):1,D_2009:2):3,(C_2009:2,B_2009:2):3):1,A_2009:6);"
+ROOTED_SAME_SUBST = "((((E_2009:0.011,F_2009:0.0095):0.0105,D_2009:0.0188):0.031,(C_2009:0.0215,B_2009:0.0182):0.0298):0.0112,A_2009:0.0592);"
 CSV_SHIFT = 0.25   # the csv deliberately disagrees with the dates in the names
 _DATA = {}
 
@@ -57,6 +61,12 @@ def data_dir() -> Path:
         (d / "rooted_subst.nwk").write_text(ROOTED_SUBST + "\n")
         # the same data with sampling dates given three other ways
         (d / "dates.csv").write_text("strain,date\n" + "".join(f"{k},{float(k.rsplit('_', 1)[1]) + CSV_SHIFT}\n" for k in SEQS))
+        # equivalent SPELLINGS of the same dates: a csv that repeats the dates of the names; contemporaneous data
+        (d / "dates_exact.csv").write_text("strain,date\n" + "".join(f"{k},{float(k.rsplit('_', 1)[1])}\n" for k in SEQS))
+        (d / "aln_same.fa").write_text("".join(f">{SAME[k]}\n{v}\n" for k, v in SEQS.items()))
+        (d / "rooted_same.nwk").write_text(ROOTED_SAME + "\n")
+        (d / "rooted_same_subst.nwk").write_text(ROOTED_SAME_SUBST + "\n")
+        (d / "dates_same.csv").write_text("strain,date\n" + "".join(f"{v},2009.0\n" for v in SAME.values()))
         ren = {k: k.rsplit("_", 1)[0] + "_" + YMD[k] for k in SEQS}
         (d / "aln_ymd.fa").write_text("".join(f">{ren[k]}\n{v}\n" for k, v in SEQS.items()))
         t = ROOTED
